@@ -29,7 +29,7 @@ mutual
     | "at" => .lit l (atValue hdr (jStr j "sym"))
     | "var" => .var l (jStr j "sym")
     | "idx" => .idx l (jStr j "sym") (parseKey (jObj j "key"))
-    | "call" => .call l (if jStr j "kind" == "method" then .method else .func) (jStr j "sym") (parseREs hdr (jArr j "args"))
+    | "call" => .call l (match jStr j "kind" with | "method" => .method | "three" => .three | _ => .func) (jStr j "sym") (parseREs hdr (jArr j "args"))
     | "ar" => .ar l (parseAOpSym (jStr j "sym")) (parseRE hdr (jObj j "l")) (parseRE hdr (jObj j "r"))
     | "cmp" => .cmp l ((parseCOp (jStr j "sym")).getD .eq) (parseRE hdr (jObj j "l")) (parseRE hdr (jObj j "r"))
     | "log" => .log l (if jStr j "sym" == "&&" then .and else .or) (parseRE hdr (jObj j "l")) (parseRE hdr (jObj j "r"))
